@@ -19,7 +19,9 @@ RULE = (
     "reload; (single difference) the same spec filled from two streams that differ in one datum (moved between bins, "
     "dropped, duplicated), a structural variant of the spec (extra trailing threshold / centre / bin, moved edge, other "
     "child type, look-alike primitive) filled with the same stream, and a pickle clone with one numeric field perturbed "
-    "by one ulp or by a gross amount; (arbitrary) two independent trees.  Reference relation R = equality of type tree, "
+    "by one ulp or by a gross amount; (history) an object and its copy / pickle clone / twin are compared, one is then "
+    "changed by fills or +=, they are compared again, the other gets the same change, and they are compared a third "
+    "time; (arbitrary) two independent trees.  Reference relation R = equality of type tree, "
     "structural parameters and normalised content (NaN == NaN, names ignored).  Oracle: == returns a bool without "
     "raising, the same in both orders, != is its negation; a == b implies R(a, b) at zero tolerance; every positive "
     "pair is equal; equality at tolerance 0 implies equality at 1e-12; a one-ulp perturbation is equal at 1e-12 and "
@@ -63,7 +65,7 @@ def strategy(tier):
         spec, focus = draw(gen.specs_and_focus(opts, 8))
         stream, _ = draw(gen.streams(spec, max_rows=24 if thorough else 12, focus=focus))
         stream = [[r, w] for r, w in stream]
-        mode = draw(st.sampled_from(("positive", "datum", "datum", "structure", "structure", "perturb", "perturb", "arbitrary")))
+        mode = draw(st.sampled_from(("positive", "datum", "datum", "structure", "structure", "perturb", "perturb", "arbitrary", "history")))
         case = {"spec": spec, "stream": stream, "mode": mode}
         if mode == "datum":
             n = len(stream)
@@ -77,6 +79,11 @@ def strategy(tier):
             case["node"] = draw(st.integers(0, 200))
             case["field"] = draw(st.integers(0, 5))
             case["amount"] = draw(st.sampled_from(("ulp", "-ulp", "gross", "gross", "neg", "to-inf", "to-nan")))
+        elif mode == "history":
+            extra, _ = draw(gen.streams(spec, max_rows=6, focus=focus))
+            case["extra"] = [[r, w] for r, w in extra]
+            case["clone"] = draw(st.sampled_from(("copy", "pickle", "twin")))
+            case["op"] = draw(st.sampled_from(("fill", "iadd")))
         elif mode == "arbitrary":
             spec2 = draw(gen.tree_specs(opts))
             s2, _ = draw(gen.streams(spec2, max_rows=6))
@@ -178,6 +185,42 @@ def check(case):  # noqa: PLR0912, PLR0915
                     require(eq3(x, y, what), "positive-pair-unequal", f"{what}: objects with identical content compare unequal at tolerance {t}")
             set_tol(0.0)
             return {"nontrivial": ndoc(a)["entries"] > 0, "labels": labels}
+
+        if mode == "history":
+            # == must answer for the state the operands are in *now*, whatever was compared before
+            b = {"copy": lambda: a.copy(), "pickle": lambda: pickle.loads(pickle.dumps(a)), "twin": lambda: fill(build(spec), stream)}[case["clone"]]()
+            twin = case["clone"] == "twin"  # separately built quantities may legitimately make == stricter
+            what = f"history:{case['clone']}:{case['op']}"
+            e = eq3(a, b, what + " before")
+            require(e or twin, "positive-pair-unequal", f"{what}: an object and its {case['clone']} compare unequal")
+
+            def mutate(h):
+                if case["op"] == "fill":
+                    fill(h, case["extra"])
+                else:
+                    h += fill(build(spec), case["extra"])  # noqa: PLW2901
+                return h
+
+            def positives(x, when):
+                # "an aggregator equals its copy(), its pickle clone and its JSON reload" - in the state it is in now
+                for nm_, y in (("copy()", x.copy()), ("pickle clone", pickle.loads(pickle.dumps(x))), ("pickle clone's copy()", pickle.loads(pickle.dumps(x)).copy())):
+                    require(eq3(x, y, f"{what} {when} vs {nm_}"), "positive-pair-unequal", f"{what}: {when}, the object compares unequal to its {nm_}", {"mode": "history"})
+                require(eq3(x.toImmutable(), hg.Factory.fromJson(x.toJson()), f"{what} {when} vs reload"), "positive-pair-unequal", f"{what}: {when}, the immutable form compares unequal to the JSON reload", {"mode": "history"})
+
+            b = mutate(b)
+            positives(b, f"after == and then {case['op']}")
+            da, db = ndoc(a), ndoc(b)
+            R = norm.same(da, db, norm.BITEXACT)
+            e = eq3(a, b, what + " after mutating b")
+            require(not e or R, "equal-but-different", lambda: f"{what}: after b was compared with a and then changed by {case['op']}, a == b is True although content differs: {norm.fmt(norm.diff(da, db, norm.BITEXACT))}", {"mode": "history"})
+            a = mutate(a)
+            da = ndoc(a)
+            R2 = norm.same(da, db, norm.BITEXACT)
+            e = eq3(a, b, what + " after mutating both")
+            require(not e or R2, "equal-but-different", lambda: f"{what}: after both sides had the same {case['op']}, a == b is True although content differs", {"mode": "history"})
+            require(e or twin or not R2, "positive-pair-unequal", f"{what}: a and its {case['clone']} compare unequal after both had the same {case['op']} (documents identical)", {"mode": "history"})
+            labels += ["clone:" + case["clone"], "op:" + case["op"], "R-true" if R else "R-false"]
+            return {"nontrivial": not R, "labels": labels}
 
         if mode == "datum":
             s2 = [list(x) for x in stream]
